@@ -126,6 +126,7 @@ type injCase struct {
 	Parent []int   `json:"parent"`
 	Hist   []injOp `json:"hist"`
 	Via    string  `json:"via,omitempty"`
+	Probe  string  `json:"probe,omitempty"` // flame via: additionally re-map a service of the request scope ("ctx" / "svc"), "-" = no
 }
 
 var injSigs = [][]string{
@@ -301,6 +302,9 @@ func injReplay(raw json.RawMessage, idx int, tr *traceWriter) {
 	if c.Via != "" {
 		vias = []string{c.Via}
 	}
+	if c.Probe == "" {
+		c.Probe = []string{"ctx", "-", "-", "-", "svc", "-", "-", "-"}[idx%8]
+	}
 	for _, via := range vias {
 		c2 := c
 		c2.Via = via
@@ -309,8 +313,11 @@ func injReplay(raw json.RawMessage, idx int, tr *traceWriter) {
 			injRunPlain(&c, tr)
 		} else {
 			injRunFlame(&c, tr)
-			if idx%16 == 0 {
+			if c.Probe == "ctx" {
 				injCtxProbe(tr)
+			}
+			if c.Probe == "svc" {
+				injSvcProbe(tr)
 			}
 		}
 	}
@@ -482,6 +489,56 @@ func injCtxProbe(tr *traceWriter) {
 			args = []injVal{{"CTX", got}}
 		}
 		tr.emit(map[string]interface{}{"ev": "invoke", "s": 2, "sig": []string{"CTX"}, "fast": p == "/fast", "err": false, "errtype": "",
+			"calls": calls, "args": args, "rets": []string{}, "bodyrets": []string{}})
+		tr.emit(map[string]interface{}{"ev": "endreq", "s": 2})
+	}
+}
+
+type rwDeco struct {
+	http.ResponseWriter
+	id int
+}
+
+// injSvcProbe: the same for the other two services of a request scope. An earlier handler re-maps http.ResponseWriter
+// (a wrapping writer, as a compressing middleware does) and *http.Request (a derived request); later handlers in the
+// plain net/http forms - func(http.ResponseWriter, *http.Request) and http.HandlerFunc, both built-in fast paths - and
+// in a reflective form must receive the re-registered values.
+func injSvcProbe(tr *traceWriter) {
+	f := flamego.NewWithLogger(io.Discard)
+	gotW, gotR := 0, 0
+	see := func(w http.ResponseWriter, r *http.Request) {
+		gotW, gotR = 1, 1
+		if d, ok := w.(*rwDeco); ok {
+			gotW = d.id
+		}
+		if r.Header.Get("X-Deco") == "7" {
+			gotR = 7
+		}
+	}
+	remap := func(c flamego.Context) {
+		tr.emit(map[string]interface{}{"ev": "reg", "op": "MapTo", "s": 2, "k": "RWI", "ct": "RWI", "id": 1})
+		tr.emit(map[string]interface{}{"ev": "reg", "op": "Map", "s": 2, "k": "REQ", "ct": "REQ", "id": 1})
+		c.MapTo(&rwDeco{ResponseWriter: c.ResponseWriter(), id: 7}, (*http.ResponseWriter)(nil))
+		r2 := c.Request().Request.Clone(c.Request().Context())
+		r2.Header.Set("X-Deco", "7")
+		c.Map(r2)
+		tr.emit(map[string]interface{}{"ev": "reg", "op": "MapTo", "s": 2, "k": "RWI", "ct": "RWI", "id": 7})
+		tr.emit(map[string]interface{}{"ev": "reg", "op": "Map", "s": 2, "k": "REQ", "ct": "REQ", "id": 7})
+	}
+	f.Get("/func", remap, func(w http.ResponseWriter, r *http.Request) { see(w, r) })
+	f.Get("/named", remap, http.HandlerFunc(func(w http.ResponseWriter, r *http.Request) { see(w, r) }))
+	f.Get("/refl", remap, func(w http.ResponseWriter, r *http.Request, _ flamego.Context) { see(w, r) })
+	for _, p := range []string{"/func", "/named", "/refl"} {
+		gotW, gotR = 0, 0
+		req, _ := http.NewRequest("GET", p, nil)
+		f.ServeHTTP(httptest.NewRecorder(), req)
+		calls := 0
+		args := []injVal{}
+		if gotW != 0 {
+			calls = 1
+			args = []injVal{{"RWI", gotW}, {"REQ", gotR}}
+		}
+		tr.emit(map[string]interface{}{"ev": "invoke", "s": 2, "sig": []string{"RWI", "REQ"}, "fast": p != "/refl", "err": false, "errtype": "",
 			"calls": calls, "args": args, "rets": []string{}, "bodyrets": []string{}})
 		tr.emit(map[string]interface{}{"ev": "endreq", "s": 2})
 	}
